@@ -20,13 +20,15 @@ EXPLANATION = (
     "step is normalised from slice(*args), `step <= 0 or int(step) != step` raises LenaValueError before run is bound, and a step "
     "other than 1 wraps the negative generator in islice(<generator>, None, None, step); "
     "(c) STOP: fill_into raises LenaStopFill only in the handler of StopIteration of next(self._indices), fills exactly when "
-    "_index == _next_index and advances _index once on every normal path; "
+    "_index == _next_index and advances _index once on every normal path; the path that raises LenaStopFill writes no state (the stop "
+    "is final); "
     "(d) ORIENTATION (order preservation): every deque of Slice._run_negative_islice and of RunningChunkBy.run is used first-in "
     "first-out -- values enter on one side (append / the constructor's iterable / appendleft) and are taken or read from the "
     "opposite one (popleft / iteration from the left / pop) -- a deque used last-in first-out would reverse the values; "
     "(e) WINDOW: RunningChunkBy.run fills the first window with deque(islice(flow, n), maxlen=n) for one and the same n = "
     "self._cs, then for every further value yields the window before appending the value, yields the last window only under "
     "len(window) == n, and its two container branches differ only in how the window is handed to the container; "
+    "run() writes nothing through self (the window is a local made per run); "
     "(f) EXHAUSTION: in the flow elements (lena/flow/iterators.py, lena/flow/elements.py, lena/core/adapters.py, lena/core/split.py) "
     "no next(<iterator>, <constant>) uses a constant default (None, False, 0, '') as the end-of-flow marker: flows may contain these "
     "values.  "
